@@ -1510,7 +1510,6 @@ def convert_mul_max_to_abs_or_lrelu(op: Operation, arch, nng) -> Operation:
 
         op.type = new_op
         op.name = op.name.replace("Maximum", new_op.name)
-        op.outputs[0].name = op.outputs[0].name.replace("Maximum", new_op.name)
         op.inputs = [shared_in]
         op.set_ifm_shapes()
 
